@@ -2142,7 +2142,7 @@ WITNESSES = [
     ("C11-EXCL-DEFAULT-LIST", [1, "x", 2, 1], [2, "x", 1, 3], mk(excl=["int"]), "nonempty"),
     ("C11-SIG0-NAN", [float("nan")], [1.0], mk(sig=0), "raises:ValueError"),
     ("C11-NUM-PRECISION", 123456789012345678, Decimal(123456789012345678), mk(numty=True), "nonempty"),
-    ("C11-ENUM-NONE", [None], [G.S], mk(enum=True), "nonempty"),
+    ("C11-ENUM-NONE", [None], [G.S], mk(enum=True), "empty"),       # fixed by c9e614d: a return of the defect is a break
     ("C11-TRUNC-DATE", {"a": datetime.date(2020, 1, 1)}, {"a": datetime.date(2020, 1, 1)}, mk(trunc="hour"), "raises:TypeError"),
     ("C11-TRUNC-DATE", {"a": datetime.timedelta(1)}, {"a": datetime.timedelta(1)}, mk(trunc="hour"), "raises:AttributeError"),
     ("C11-SIG-TIMEDELTA-SET", {datetime.timedelta(1)}, {datetime.timedelta(1)}, mk(sig=1), "raises:TypeError"),
@@ -2162,9 +2162,11 @@ def replay_witnesses(ctx):
         got = "raises:" + r[1] if r[0] == "raised" else ("nonempty" if r[1] else "empty")
         n += 1
         if got != expect:
+            fixed = any(f.get("key") == key and str(f.get("status", "")).startswith("fixed") for f in ctx.findings)
             ctx.break_("correspondence", {"name": "refuted_witness", "finding": key, "t1": lit(a), "t2": lit(b), "spec": sp,
                                           "expected_on_impl": expect, "got": got,
-                                          "meaning": "the implementation no longer exhibits this finding: the model (which has it) is out of date"})
+                                          "meaning": ("the defect fixed in /repo is BACK (the model follows the fixed behaviour)" if fixed else
+                                                      "the implementation no longer exhibits this finding: the model (which has it) is out of date")})
         if base[0] == "raised":
             ctx.break_("correspondence", {"name": "refuted_witness", "finding": key, "plain_run_raises": base[1]})
     ctx.note("refuted_witnesses_replayed", n)
@@ -2177,10 +2179,10 @@ def run(ctx):
     rng = ctx.rng
     thorough = ctx.thorough
     replay_witnesses(ctx)
-    atom_level(ctx, 8000 if thorough else 420)
+    atom_level(ctx, 5000 if thorough else 420)
 
     # ---- structural correspondence + oracle on the modelled universe ----
-    per_spec = 2400 if thorough else 55
+    per_spec = 1500 if thorough else 55
     mjobs, ojobs = [], []
     specs = all_specs(rng, True)
     for name, sp in specs:
@@ -2235,7 +2237,7 @@ def run(ctx):
     # ---- the extended model (arbitrary floats, datetimes; + truncate_datetime, default_timezone) ----
     global _XU
     _XU = True
-    per_spec = 700 if thorough else 26
+    per_spec = 450 if thorough else 26
     xjobs, ojobs = [], []
     for name, sp in xspecs(rng):
         for fam, a, b, log in gen_pairs(rng, sp, per_spec, True):
@@ -2270,7 +2272,7 @@ def run(ctx):
             if in_xuniverse(a) and in_xuniverse(b) and not (sp["enum"] and enum_meets_container(a, b)):
                 xjobs.append((a, b, sp, zip_, 0.33, "hand", "hand"))
             ojobs.append((a, b, sp, zip_, "rand", "hand", []))
-    for name, sp, fam, a, b, log in focus_pairs(rng, 1500 if thorough else 130):
+    for name, sp, fam, a, b, log in focus_pairs(rng, 1000 if thorough else 130):
         zip_ = rng.random() < 0.4
         thr = 0 if rng.random() < 0.25 else 0.33
         ojobs.append((a, b, sp, zip_, fam, name, log))
@@ -2317,7 +2319,7 @@ def run(ctx):
     report_oracle(ctx, ores, ojobs)
 
     # ---- direct oracle on the rich universe, all eleven options ----
-    per_spec = 1500 if thorough else 40
+    per_spec = 1000 if thorough else 40
     ojobs = []
     for name, sp in all_specs(rng, False):
         for fam, a, b, log in gen_pairs(rng, sp, per_spec, True):
